@@ -228,10 +228,13 @@ namespace nmtools::view
         static constexpr auto apply_at(const operand_t& operand, const indices_t& indices)
         {
             static_assert( !meta::is_maybe_v<operand_t> && meta::is_ndarray_v<meta::remove_cvref_pointer_t<operand_t>> );
+            // hand the op the element VALUE: a broadcast scalar operand yields its num view, which ops
+            // using common_type / ?: convert to the other operand's type (maximum(int_array,2.5) gave 2)
+            using element_t = meta::get_element_type_t<meta::remove_cvref_pointer_t<operand_t>>;
             if constexpr (meta::is_pointer_v<operand_t>) {
-                return nmtools::apply_at(*operand,indices);
+                return static_cast<element_t>(nmtools::apply_at(*operand,indices));
             } else {
-                return nmtools::apply_at(operand,indices);
+                return static_cast<element_t>(nmtools::apply_at(operand,indices));
             }
         }
 
